@@ -73,7 +73,7 @@ class C17(Plugin):
     SCHEMES = ["http", "https", "ws", "wss", "HTTP", "HTTPS", "WSS", "Https", "ftp", "foo+bar"]
     HOSTS = ["example.test", "EXAMPLE.test", "Example.Test", "localhost", "127.0.0.1", "[::1]", "[2001:db8::1]", "a.wild.test",
              "other.test", "a..b", "-a.test", "x_y", "a_b.test", "xn--bcher-kva.example", "1.2.3", "a", "u:p@example.test",
-             "example.test."]
+             "example.test.", "[v1.fe80]", "[1.2.3.4]", "[::ffff:1.2.3]", "[:]"]   # bracketed, URI-legal, not IPv6 addresses
     PORTS = ["", ":80", ":443", ":8080", ":", ":0", ":65535", ":00080"]
     PATHS = ["", "/", "/a/b?x=1", "/*", "?q", "/a%20b/"]
     RELATIVE = ["/rel", "/rel?x=1", "/", "*", "//auth.test/p", "/a%20b", "example.test:443", "[::1]:8443", "example.test",
@@ -88,6 +88,11 @@ class C17(Plugin):
         [["transfer-encoding", "chunked"], ["proxy-connection", "keep-alive"], ["x-a", "1"], ["x-a", "2"]],
         [["user-agent", "mine/1"], ["host", "h:1"], ["upgrade", "h2c"]],
         [["content-length", "5"]], [["expect", "100-continue"]], [["te", "trailers"], ["x-long", "v" * 300]],
+        # header values that are legal HeaderValues but not visible ASCII (obs-text): to_str() fails on them
+        [["connection", "k\u00e9ep"]], [["connection", "close"], ["connection", "\u00ff"]],
+        [["connection", "keep-alive"], ["keep-alive", "\u00e9"]], [["upgrade", "\u00e9"], ["connection", "upgrade"]],
+        [["te", "\u00e9"]], [["x-a", "\u00e9\u00ff"]], [["proxy-connection", "\u00e9"]], [["transfer-encoding", "\u00e9"]],
+        [["user-agent", "\u00e9"]],
     ]
     ENTRIES = ["client", "clientnp", "pool", "poolnp", "conn", "connbare"]
     TLS = [("no", "good", "none", "none"), ("yes", "good", "none", "none"), ("yes", "good", "h2", "h2"),
